@@ -4,6 +4,7 @@ import sys
 sys.path.insert(0, os.path.dirname(os.path.abspath(__file__)))
 import core  # noqa: E402
 import genes  # noqa: E402  (kernel II: gene bookkeeping, coq/theories/Genes)
+import groups  # noqa: E402  (kernel III: groups and identifier changes, coq/theories/Groups)
 
 if __name__ == "__main__":
     sys.exit(core.main(
@@ -18,5 +19,8 @@ if __name__ == "__main__":
              "contains an operation other than Enter/Exit/NewRxn; distinct = distinct op lists",
         manifest_trusted=["object identity is one Python object per identifier (enforced by the generator)",
                           "genes kernel: gene objects are compared through identifiers and identity tests on the real "
-                          "objects (harness/genes.py observe), not through an object numbering"],
-        extra=[genes.run], extra_targets=genes.EXTRA_TARGETS))
+                          "objects (harness/genes.py observe), not through an object numbering",
+                          "groups kernel: the objects of a history are numbered by identity (harness/groups.py observe); "
+                          "which of the repaired / unrepaired variants of seven code paths is under test is decided by "
+                          "probes on the real implementation (harness/groups.py probe_variant)"],
+        extra=[genes.run, groups.run], extra_targets=genes.EXTRA_TARGETS + groups.EXTRA_TARGETS))
